@@ -9,6 +9,7 @@ Steps: (1) worktree clean -> apply patch -> test suite must pass -> demo must FA
 import json, os, shutil, subprocess, sys, time
 
 prop, wt, m = sys.argv[1], sys.argv[2], sys.argv[3]
+label = next((a.split("=", 1)[1] for a in sys.argv if a.startswith("--label=")), m)
 mdir = os.path.join(wt, "mutations", m)
 patch = os.path.join(mdir, "patch.diff")
 env = dict(os.environ, CARGO_NET_OFFLINE="true")
@@ -24,7 +25,7 @@ def run(cmd, cwd, extra_env=None, timeout=3600):
 def git(args, cwd):
     return run(["git"] + args, cwd)
 
-meta = {"property": prop, "mutation": m, "worktree": wt, "ran": []}
+meta = {"property": prop, "mutation": label, "worktree": wt, "ran": []}
 # ---- 1. confirm in the scratch worktree
 git(["checkout", "--", "."], wt)
 code, out, _ = git(["apply", "--check", patch], wt)
@@ -81,7 +82,7 @@ print("check detects:", meta.get("check_detects"))
 print(meta.get("check_output", "")[:1500])
 # ---- 3. record
 if confirmed or "--keep-if-unconfirmed" in sys.argv:
-    dst = os.path.join("/verif/seeded", f"{prop}-{m}")
+    dst = os.path.join("/verif/seeded", f"{prop}-{label}")
     shutil.rmtree(dst, ignore_errors=True)
     os.makedirs(dst)
     shutil.copy(patch, os.path.join(dst, "patch.diff"))
